@@ -388,6 +388,24 @@ Fixpoint bind_args (cx : ctx) (f : nat) (ln : nat) (en : env) (ps : list (bytes 
     end
   end.
 
+(* evalDumpStmt: every argument evaluated and dumped at indentation 0.  The dump of an ERROR object
+   (an argument that fails: its box shows the file and the line) is not modelled. *)
+Fixpoint dump_args (ev : expr -> outcome value) (args : list expr) : outcome (list bytes) :=
+  match args with
+  | [] => Ok []
+  | a :: r =>
+    match ev a with
+    | Ok v => match dump_value 0 v with
+              | Some d => let! ds := dump_args ev r in Ok (d :: ds)
+              | None => Unmodelled
+              end
+    | Fail _ _ => Unmodelled
+    | Panic => Panic
+    | OutOfFuel => OutOfFuel
+    | Unmodelled => Unmodelled
+    end
+  end.
+
 (* Statements return the Go object and the environment chain as it is afterwards
    (only the innermost frame can have changed, see Proofs/Scopes.v). *)
 Fixpoint eval_stmt (cx : ctx) (fuel : nat) (en : env) (s : stmt) {struct fuel} : outcome (value * env) :=
@@ -480,7 +498,7 @@ Fixpoint eval_stmt (cx : ctx) (fuel : nat) (en : env) (s : stmt) {struct fuel} :
       | Some b => let! r := eval_block cx f en b [] in Ok (VSlot (fst r), snd r)
       | None => Ok (VSlot VNil, en)
       end
-    | SDump _ _ => Unmodelled
+    | SDump _ args => let! ds := dump_args (eval_expr cx f en) args in Ok (VDump ds, en)
     end
   end
 
